@@ -303,7 +303,8 @@ def run_interleaved(plan, sim, code, rc, faces, violate, stats, states):
                      'signs': dec.get_initial_state(syn), 'corr': {},
                      'k': 0})
     for step in range(plan.get('steps', 12)):
-        r = runs[srng.randrange(len(runs))]
+        ri = srng.randrange(len(runs))
+        r = runs[ri]
         args = ()
         if plan['decoder'] == 'rotated':
             args = (SWEEP_DIRS[r['k'] % len(SWEEP_DIRS)],)
@@ -316,15 +317,14 @@ def run_interleaved(plan, sim, code, rc, faces, violate, stats, states):
             return
         r['k'] += 1
         stats['steps'] += 1
-        for q in runs:
+        for qi, q in enumerate(runs):
             bad = step_invariant(code, rc, faces, face_set, q['e'],
                                  q['signs'], q['corr'], n)
             if bad is not None:
                 violate(bad.pop('class'), dict(
                     bad, size=plan['size'], error=q['err'],
-                    interleaved_step=step,
-                    run_just_stepped=runs.index(r),
-                    run_checked=runs.index(q)))
+                    interleaved_step=step, run_just_stepped=ri,
+                    run_checked=qi))
                 return
     sim.probe('interleaved_runs_on_one_decoder')
     states.add(digest(['interleaved', plan['decoder'], plan['code'],
